@@ -383,7 +383,7 @@ def fit_scipy(
         except LargeNumberError:
             return except_result(fcn, len(x0))
         xn = s.x
-        fcn.vm.set_var(xn)
+        fcn.vm.set_all(xn)
         print(s)
         ndf = s.x.shape[0]
         min_nll = s.fun
